@@ -9,6 +9,9 @@
 //! * `immediate_effect` — (c) revocation / suspension / deny on the very next
 //!   request of a session opened before the event;
 //! * `delegation_subset` — (d) view(delegate) ⊆ view(delegator);
+//! * `owner_delegation` — (c, d) the same for a delegator that holds the Space
+//!   itself (co-owner / founding owner): suspended, revoked or taken out of the
+//!   owners, its delegations confer nothing from the very next request on;
 //! * `authority_is_control_plane_only` — (e) no session command changes the
 //!   governance collections, an element's governance block or an audit row.
 
